@@ -20,6 +20,7 @@ package main
 import (
 	"go/ast"
 	"go/token"
+	"sort"
 	"strings"
 )
 
@@ -202,4 +203,116 @@ func genC05() {
 		facts["c05_fn_"+k] = c12Digest(v)
 		facts["c05_src_"+k] = v
 	}
+	facts["c05_package_state"] = c05PackageState([]string{
+		"pkg/store/store.go", "pkg/store/ds.go", "pkg/store/aof_writer.go", "pkg/store/aof_reader.go",
+		"pkg/store/rdb_writer.go", "pkg/store/rdb_reader.go", "pkg/store/reader.go", "pkg/store/util.go",
+		"syncer/channel.go", "syncer/memory_channel.go", "pkg/io/pipe/pipe.go"})
+}
+
+// c05PackageState (session 5, dimension audit): the PROCESS-GLOBAL state the cache code can reach -
+// every package-level `var` of the anchor files, with "written" when some function of these files
+// assigns to it, increments it, assigns through an index / field of it or takes its address
+// (name-based: a local of the same name counts too - over-approximation), else "read-only".
+// Reads of process-global CONFIGURATION (config.GetSyncerConfig()) are listed as "config: <selector path>".
+func c05PackageState(files []string) []string {
+	type pv struct{ file, name string }
+	var vars []pv
+	var parsed []*ast.File
+	for _, rel := range files {
+		_, f := parseFile(rel)
+		parsed = append(parsed, f)
+		for _, d := range f.Decls {
+			gd, ok := d.(*ast.GenDecl)
+			if !ok || gd.Tok != token.VAR {
+				continue
+			}
+			for _, sp := range gd.Specs {
+				for _, n := range sp.(*ast.ValueSpec).Names {
+					if n.Name != "_" {
+						vars = append(vars, pv{rel, n.Name})
+					}
+				}
+			}
+		}
+	}
+	root := func(e ast.Expr) string {
+		for {
+			switch x := e.(type) {
+			case *ast.Ident:
+				return x.Name
+			case *ast.IndexExpr:
+				e = x.X
+			case *ast.SelectorExpr:
+				e = x.X
+			case *ast.StarExpr:
+				e = x.X
+			case *ast.ParenExpr:
+				e = x.X
+			default:
+				return ""
+			}
+		}
+	}
+	written := map[string]bool{}
+	cfg := map[string]bool{}
+	for _, f := range parsed {
+		ast.Inspect(f, func(n ast.Node) bool {
+			switch x := n.(type) {
+			case *ast.AssignStmt:
+				if x.Tok != token.DEFINE {
+					for _, l := range x.Lhs {
+						written[root(l)] = true
+					}
+				}
+			case *ast.IncDecStmt:
+				written[root(x.X)] = true
+			case *ast.UnaryExpr:
+				if x.Op == token.AND {
+					written[root(x.X)] = true
+				}
+			case *ast.SelectorExpr:
+				// config.GetSyncerConfig().A.B
+				path := []string{x.Sel.Name}
+				e := x.X
+				for {
+					if se, ok := e.(*ast.SelectorExpr); ok {
+						if _, isCall := se.X.(*ast.CallExpr); isCall {
+							path = append([]string{se.Sel.Name}, path...)
+							e = se.X
+							continue
+						}
+					}
+					break
+				}
+				if ce, ok := e.(*ast.CallExpr); ok {
+					if fs, ok := ce.Fun.(*ast.SelectorExpr); ok && fs.Sel.Name == "GetSyncerConfig" {
+						cfg[strings.Join(path, ".")] = true
+					}
+				}
+			}
+			return true
+		})
+	}
+	var out []string
+	for _, v := range vars {
+		k := "read-only"
+		if written[v.name] {
+			k = "written"
+		}
+		out = append(out, v.file+": "+v.name+" "+k)
+	}
+	var cs []string
+	for c := range cfg {
+		longer := false
+		for o := range cfg {
+			if strings.HasPrefix(o, c+".") {
+				longer = true
+			}
+		}
+		if !longer {
+			cs = append(cs, "config: "+c)
+		}
+	}
+	sort.Strings(cs)
+	return append(out, cs...)
 }
